@@ -203,7 +203,7 @@ fn effective(s: &Snap) -> Vec<(String, String)> {
         };
         let th = thickness(s.in_dim, &rows, &delta());
         if th == Thickness::RobustEmpty {
-            errs.push(("kept_empty_node".into(), format!("node {i} survives although its path region is empty by more than 1e-6")));
+            errs.push(("kept_empty_node".into(), format!("node {i} survives although its path region is empty by more than 1e-7")));
         }
         if !n.isleaf && n.n_children() == 1 && th == Thickness::Fat {
             errs.push(("single_branch_decision".into(), format!("decision {i} is left with a single branch")));
@@ -362,6 +362,7 @@ pub fn run_case(c: &Case) -> CaseOut {
 }
 
 pub fn run(tier: Tier) -> Report {
+    set_delta(1e-7);
     let mut rep = Report::new("C06", tier, "model_checking");
     let cs = cases(tier);
     rep.set("programs", cs.len() as u64);
@@ -373,6 +374,6 @@ pub fn run(tier: Tier) -> Report {
         Tier::Quick => "un-pruned pipelines from_aff(A) . (compose(schema) | apply_func | eliminate)* of <= 5 steps ending in an elimination (8 roots, 7-8 total schemas per dimension, 3-4 maps); total generator trees with <= 9 nodes over parallel/concurrent predicates; ReLU/leaky networks with <= 4 deviations for the terminal-count clause",
         Tier::Thorough => "pipelines of <= 6 steps (9 roots); generator trees with <= 11 nodes; networks with <= 5 deviations",
     });
-    rep.assume("'empty by more than tolerance' = no point within 1e-6*max(1,|row|_1) of satisfying all path rows; a single-branch decision is judged only if its own region is fat");
+    rep.assume("'empty by more than tolerance' = no point within 1e-7*max(1,|row|_1) of satisfying all path rows; a single-branch decision is judged only if its own region is fat");
     rep
 }
